@@ -66,6 +66,21 @@ type Env struct {
 	H    http.Handler
 	tagN atomic.Int64
 	Name string
+	// Cancellable gives every request a context that CancelRequest can cancel from inside a storage call (the
+	// client goes away at that very moment).
+	Cancellable bool
+}
+
+type cancelKey struct{}
+
+// CancelRequest cancels the request whose context (or a context derived from it) is ctx; it reports whether the
+// request was cancellable.
+func CancelRequest(ctx context.Context) bool {
+	if c, ok := ctx.Value(cancelKey{}).(context.CancelFunc); ok {
+		c()
+		return true
+	}
+	return false
 }
 
 const DefaultIssuer = "https://idp.example/saml"
@@ -222,6 +237,11 @@ func (e *Env) Do(rq Req) *Call {
 	}
 	if rq.Ctx != nil {
 		r = r.WithContext(rq.Ctx)
+	}
+	if e.Cancellable {
+		cctx, cancel := context.WithCancel(r.Context())
+		defer cancel()
+		r = r.WithContext(context.WithValue(cctx, cancelKey{}, cancel))
 	}
 	r = r.WithContext(sim.WithTag(r.Context(), tag))
 	c := &Call{Tag: tag, Method: rq.Method, Path: rq.Path, Query: rq.Query, Host: rq.Host, Body: rq.Body, Hdr: h, Rec: reply.NewRecorder()}
